@@ -141,6 +141,24 @@ theorem alpha_facts : ∀ c : UInt8, isAlpha c = true → isDigitB c = false ∧
   apply byte_forall
   decide +kernel
 
+theorem alpha_alnum : ∀ c : UInt8, (isAlpha c || isDigitB c) = true → isAlnumB c = true := by
+  apply byte_forall
+  decide +kernel
+
+/-- A valid variable name has no underscore, so `ParseInt` reads it as it reads any underscore-free text. -/
+theorem varname_no_underscore {v : Bytes} (h : validVariableName v = true) : v.contains 95 = false := by
+  cases hc : v.contains 95 with
+  | false => rfl
+  | true =>
+    have hm : (95 : UInt8) ∈ v := by simpa using hc
+    cases v with
+    | nil => cases hm
+    | cons c r =>
+      simp only [validVariableName, Bool.and_eq_true, List.all_eq_true] at h
+      rcases List.mem_cons.mp hm with e | hr
+      · rw [← e] at h; exact absurd h.1 (by decide)
+      · exact absurd (h.2 95 hr) (by decide)
+
 theorem all_alnum {v : Bytes} (h : v.all isAlnumB = true) : ∀ b ∈ v, isAlnumB b = true := by
   intro b hb
   exact List.all_eq_true.mp h b hb
@@ -199,7 +217,9 @@ theorem intLeaf_sound {ib : Binding Int} {b : Binding F64} (hb : IntBinding ib b
             have hpl : (arith L).parseFloat (c :: r) = .notNum := by
               show parseLit (c :: r) = _
               unfold parseLit; rw [hpf]
-            simp [classify, classifyE, hbox, parseNum, hd, h46, hp, hpl, hvn]
+            have hu : parseIntU (c :: r) = none := by
+              unfold parseIntU; rw [varname_no_underscore hvn]; exact hp
+            simp [classify, classifyE, hbox, parseNum, hu, hpl, hvn]
         refine ⟨.named v, hcl, ?_⟩
         have := hb.1 v (by rw [e]; exact hr)
         rw [e] at this
